@@ -39,14 +39,18 @@ def runLoop (env : Env) (univ : List String) : Nat â†’ State Nat â†’ List Json â
         let r := pass env s
         let s' := loopStep env s
         let row := Json.mkObj [
-          ("reason", .str (if env.prematch then C14.reasonStr c.reason else "blind")),
-          ("selected", if env.prematch then .arr ((env.sel c).map Json.str).toArray else .null),
-          ("invoked", if env.prematch
+          ("reason", .str (if (decisionOf env s).add then "add-finalizer"
+                           else if (decisionOf env s).removeUnneeded then "remove-finalizer"
+                           else if env.prematch then C14.reasonStr c.reason else "blind")),
+          ("selected", if (decisionOf env s).handlersRun then .arr ((env.sel c).map Json.str).toArray else .null),
+          ("invoked", if (decisionOf env s).handlersRun
             then .arr (r.invoked.map (fun (i, n) => Json.arr #[.str i, .num (JsonNumber.fromNat n)])).toArray
             else .arr #[]),
           ("now", .num (JsonNumber.fromInt s.now)),
           ("P", recsJson univ s'.P),
           ("base", baseJson s'),
+          ("blocked", .bool s'.blocked),
+          ("gone", .bool s'.gone),
           ("fullyHandled", .bool s'.fullyHandled),
           ("writes", .num (JsonNumber.fromNat (s'.writes - s.writes))),
           ("pending", .bool s'.pending)]
@@ -69,6 +73,10 @@ def handle : DrvHandler := fun op args =>
       let noticed â† jBool? (â† jField? j "noticed")
       let fullyHandled â† jBool? (â† jField? j "fullyHandled")
       let prematch â† jBool? (â† jField? j "prematch")
+      let changeReq â† jBool? (â† jField? j "changeReq")
+      let foreignFins â† jBool? (â† jField? j "foreignFins")
+      let marked â† jBool? (â† jField? j "marked")
+      let blocked â† jBool? (â† jField? j "blocked")
       let now â† jInt? (â† jField? j "now")
       let lat â† jInt? (â† jField? j "lat")
       let cap â† jInt? (â† jField? j "cap")
@@ -82,8 +90,8 @@ def handle : DrvHandler := fun op args =>
         limits := fun i => (C02.lookupD limitsL i).getD { timeout := none, retries := none },
         lifecycle,
         exec := fun i n => ((C02.lookupD oT i).bind (fun rows => (rows.find? (Â·.1 == n)).map (Â·.2))).getD missing,
-        prematch, lat, cap }
-      let s0 : State Nat := { P := C02.lookupD pL, base, ess := 0, noticed, fullyHandled, now,
+        prematch, changeReq, foreignFins, lat, cap }
+      let s0 : State Nat := { P := C02.lookupD pL, base, ess := 0, marked, blocked, gone := false, noticed, fullyHandled, now,
                               pending := true, writes := 0 }
       let (rows, s) := runLoop env univ fuel s0 []
       some (ok (Json.mkObj [
